@@ -37,6 +37,8 @@ type UDPWorld struct {
 	Clients  []*UDPClient
 	ServeErr error
 	Served   bool
+	// LastSendAt: simulated time at which the last client finished sending
+	LastSendAt time.Duration
 }
 
 func (e *Env) NewUDPWorld(routes layer4.RouteList, timeout time.Duration) *UDPWorld {
@@ -70,6 +72,9 @@ func (w *UDPWorld) StartClient(p *UDPClientPlan) *UDPClient {
 		}
 		lk()
 		c.Done = true
+		if el := w.E.S.Elapsed(); el > w.LastSendAt {
+			w.LastSendAt = el
+		}
 		ulk()
 	})
 	return c
@@ -130,6 +135,12 @@ type UDPRec struct {
 	Reply    bool
 	BufSize  int
 	Log      *[]*AssocRec
+	// SlowFor > 0: associations of SlowClient ("" = every client) do not read for
+	// that long after they were started (a handler busy elsewhere); with SlowNoRead
+	// they then return without ever reading.
+	SlowClient string
+	SlowFor    time.Duration
+	SlowNoRead bool
 }
 
 func (u *UDPRec) Handle(cx *layer4.Connection, _ layer4.Handler) error {
@@ -142,6 +153,17 @@ func (u *UDPRec) Handle(cx *layer4.Connection, _ layer4.Handler) error {
 		bs = 9216
 	}
 	buf := make([]byte, bs)
+	if u.SlowFor > 0 && (u.SlowClient == "" || u.SlowClient == rec.Client) {
+		time.Sleep(u.SlowFor)
+		u.E.S.Park("slow-handler")
+		if u.SlowNoRead {
+			es := u.E.S.StepNow()
+			lk()
+			rec.EndStep = es
+			ulk()
+			return nil
+		}
+	}
 	for {
 		n, err := cx.Read(buf)
 		if n > 0 {
